@@ -8,6 +8,9 @@ from . import text as G
 
 # programs that exercise the semantic rules while being valid somewhere in 3.6-3.13
 VALID_SNIPPETS = [
+    'run(app, debug=__debug__)\n', 'class C(B, k=__debug__): pass\n', 'x = dict(strict=__debug__)\n', 'def f(a=__debug__): return a\n',
+    # format specs that begin with '=' (sign-aware padding): ':=' inside a replacement field is ':' + spec, never the walrus operator
+    'title = f"{name:=^30}"\n', 'f"{total:=+8}|"\n', "s = f'{x:=10}' + f'{v:={w}d}'\n", 'f"{a:{b:=3}}"\n', "print(f'{x:=>{width}}', f'{(y := 1)}')\n",
     # starred targets whose operand is no plain name; the only yield of a function inside an f-string field
     'first, *self.rest = items\n', 'head, *(mid, last) = items\n', 'for key, *obj.values in rows: pass\n', '*a[0], b = c\n', '[*a.b] = c\n',
     'a, *[b, c] = d\n', 'with x as (a, *b.c): pass\n', '[x for a, *b.c in d]\n', 'a, *(b, *c.d) = e\n', 'for *a[i], b in c: pass\n',
@@ -199,6 +202,25 @@ def yield_program(rng):
     return head + ''.join(ind + l for stmt in body for l in stmt.splitlines(True))
 
 
+
+_SPECIAL_NAMES = ['__debug__', '__class__', '__name__', '__file__', 'print', 'exec', 'match', 'case', 'type', '_', 'async_', 'self', 'None', 'True', 'Ellipsis',
+                  'NotImplemented', '__builtins__', 'nonlocal_', 'await_']
+_USES = ['run(app, debug=%s)\n', 'class C(B, k=%s): pass\n', 'x = dict(strict=%s)\n', 'def f(a=%s): pass\n', 'def f(*, k=%s): pass\n', 'x = y[%s]\n', 'x = %s.attr\n',
+         'x = a if %s else b\n', 'assert %s, msg\n', 'if %s: pass\n', 'while not %s: break\n', 'x = [%s for i in j]\n', 'x = [i for i in %s]\n', '@deco(%s)\ndef f(): pass\n',
+         'x = f"{%s}"\n', 'x = lambda: %s\n', 'x = lambda k=%s: k\n', 'return_ = (%s, 1)\n', 'x = {%s: 1}\n', 'x = {"k": %s}\n', 'f(*%s)\n', 'f(**%s)\n', 'x = -%s\n',
+         'x = %s < 1 <= %s\n', 'x = %s is not None\n', 'with ctx(%s): pass\n', 'for i in %s: pass\n', 'raise E(%s)\n', 'del d[%s]\n', 'x: %s = 1\n', 'def f() -> %s: pass\n',
+         'print(%s, sep=%s)\n', 'x = (yield_ := %s)\n', 'try: pass\nexcept %s: pass\n', 'x = %s if %s else %s\n', 'f(k=not %s)\n', 'f(k=%s and y)\n', 'f(%s)\n']
+
+
+def use_program(rng):
+    """special names (dunder constants, soft keywords, former keywords) in every *reading* position"""
+    n = rng.choice(_SPECIAL_NAMES)
+    s = rng.choice(_USES).replace('%s', n)
+    if rng.random() < .3:
+        s = rng.choice(['def g():\n', 'class K:\n', 'async def g():\n', 'if x:\n']) + ''.join('    ' + l for l in s.splitlines(True))
+    return s
+
+
 def candidates(rng, files, deriver=None):
     """endless stream of candidate programs (origin, text); most compile, the filter decides"""
     while True:
@@ -211,6 +233,9 @@ def candidates(rng, files, deriver=None):
             continue
         if rng.random() < .12:
             yield 'yields', yield_program(rng)
+            continue
+        if rng.random() < .08:
+            yield 'uses', use_program(rng)
             continue
         if r < .25:
             s = rng.choice(VALID_SNIPPETS)
@@ -296,6 +321,12 @@ _SBODY = ['a', ' ', '%s', '"', "'", '\\"', "\\'", '\\\\', '\\n', '\\\n', '\\\r\n
 def string_literal(rng):
     p = rng.choice(_SPFX)
     q = rng.choice(['"', "'", '"""', "'''"])
+    if len(q) == 1 and rng.random() < .15:
+        # a one-line string continued with backslash-newline whose text begins with (or soon has) the other kind of quote
+        o = "'" if q == '"' else '"'
+        head = rng.choice([o, o + '%s' + o + ' is ', 'a' + o, o + o, '', 'x', o + ' '])
+        nl = rng.choice(['\\\n', '\\\n', '\\\r\n', '\\\r'])
+        return rng.choice(['', '', 'r', 'b', 'u', 'rb', 'f', 'Rb', 'BR']) + q + head + rng.choice(['', 'b', ' c ']) + nl + rng.choice(['', 'd', o, '  e']) + q
     n = rng.randint(0, 5)
     body = ''.join(rng.choice(_SBODY) for _ in range(n))
     return p + q + body + q
